@@ -6,6 +6,9 @@ M  MC_Scan (Scan.tla): the state operator of scan_binary_op is associative on bl
 R  real dask_groupby_scan graphs executed task by task (random topological order):
    every grouped_reduce / chunk_scan / scan_binary_op output (ScanState) validated
    against Scan.tla by TraceScan.tla.
+S  FloxScan.tla: the whole groupby_scan call as a state machine (validation order, pass-through, single-member
+   shortcut, eager scan, the cumreduction task graph in ANY order and bracketing, finalize), model-checked
+   and replayed into the real entry point (harness/scancompose.py).
 T  Returns of eager and chunked groupby_scan (float / int / bool data, all chunkings,
    numpy and dask labels, missing labels for ffill/bfill) against RefScan.
 """
@@ -119,6 +122,12 @@ def run(ctx):
         raise MachineryFailure("binding control: corrupted scan record accepted")
     ctx.add_traces(len(lines), stats, name="TraceScan")
     ctx.cov["scan_graphs_replayed"] = ngraphs
+    # the composed scan specification (FloxScan.tla): exhaustive at small bounds (every chunking, task order and bracketing of the
+    # block states), then its behaviours (incl. +-inf data, refusal cells, shortcuts) replayed into the real groupby_scan
+    from . import composescan
+
+    composescan.model(ctx)
+    composescan.replay(ctx, {"scan:result", "scan:shape", "scan:refusal", "scan:input"})
     ctx.cov["replayed_behaviours"] += ngraphs
     ctx.sample(lines[0])
     ctx.sample(next((x for x in lines if x["kind"] == "binop"), lines[-1]))
